@@ -85,7 +85,7 @@ class Shadow:
                     ctx.count("boundary_ids_registered")
                 r = o_put(m, chanid, chan)
                 sh.table(m)[chanid] = weakref.ref(chan)
-                if sh.race is not None and path == "open_channel":
+                if sh.race is not None and path == "open_channel" and m is sh.race["map"]:
                     sh.race["local_done"].set()
                 return r
 
@@ -120,7 +120,7 @@ class Shadow:
         def get(m, chanid):
             r = o_get(m, chanid)
             race = sh.race
-            if race is not None and r is None and not race["peer_inside"].is_set():
+            if race is not None and r is None and m is race["map"] and not race["peer_inside"].is_set():
                 f = sys._getframe(1)
                 if f.f_code.co_name == "_next_channel":
                     names = []
@@ -314,7 +314,7 @@ def run_race(ctx, sh, rng, trials):
         for k in range(trials):
             with p.ts.lock:
                 p.ts._channel_counter = rng.choice((5, 100, LIMIT - 1, LIMIT - 2, 0))
-            race = dict(peer_inside=threading.Event(), local_done=threading.Event(), pause=0.15)
+            race = dict(peer_inside=threading.Event(), local_done=threading.Event(), pause=0.15, map=p.ts._channels)
             errs = []
 
             def peer_open():
